@@ -4,6 +4,9 @@ Model: coq/theories/Pbc.v (FMesher::DoPeriodicBCTriangulation without the air-ga
 read-back of the first Triangle pass, spacing of boundary entities, validity checks, spacing
 reconciliation, interleaved subdivision of the two partner segments / arcs, the point list, the
 remaining entities, sortXY + pruning, the .pbc text); theorems PbcProofs.v / Properties_C07.v.
+Translator (regen): coq/theories/gen/PbcSel.v = which BdryFormat values the three readers call
+(anti)periodic (CBoundaryProp.cpp) and which ones DoPeriodicBCTriangulation selects; whether the
+selection covers the readers is decided in Coq and both outcomes have their theorem.
 
 Tie (correspond): generated periodic cells -> real `fmesher --write-poly`.  The model's inputs that
 come out of Triangle (the .edge/.ele of the FIRST pass, which the real run overwrites) are taken
@@ -18,13 +21,12 @@ a node of partner A and its image on partner B under the cell's rigid motion, ev
 is listed exactly once, flags carry the sign, no duplicates; the solver's potentials of listed
 pairs are equal / opposite; invalid assignments are rejected.  Sanitizer runs of the mesher on the
 same problems (memory errors in the pairing code)."""
-import os, json, math, shutil, copy, re
-from fractions import Fraction
+import os, json, math, shutil, re
 import vlib, femgen, meshlib
 from props import c07_gen
 
 LEVEL = "proof"
-COQ_MODULES = ["Pbc"]
+COQ_MODULES = ["gen/PbcSel", "Pbc"]
 ASSUMPTIONS = [
     "Triangle is not modelled: the edges and elements of the first pass are inputs of the model (taken from a real fmesher run "
     "that stops after the first pass); that Triangle orients the boundary edges of the two partners consistently, and adds no "
@@ -40,6 +42,73 @@ HEADER = ("From Coq Require Import ZArith List Floats String. Import ListNotatio
 SOLVER = {"fem": ("fsolver", ".ans"), "fee": ("esolver", ".res"), "feh": ("hsolver", ".anh")}
 SIG_D3 = "fmesher:periodic-arc:stale-index"
 SIG_E1 = "fmesher:electrostatic-periodic:ignored"
+
+
+# --------------------------------------------------------------------------- translator ----
+def _cond_to_coq(cond, what):
+    """C++ condition over BdryFormat / isPeriodic() -> Coq boolean expression over [k] and [fmt]"""
+    c = re.sub(r"//[^\n]*", "", cond)
+    c = re.sub(r"\s+", "", c)
+    c = c.replace("problem->lineproplist[i]->", "")
+    c = c.replace("isPeriodic()", "P")
+    out, i = [], 0
+    while i < len(c):
+        m = re.match(r"BdryFormat(==|!=|<=|>=|<|>)(\d+)", c[i:])
+        if m:
+            op, n = m.group(1), m.group(2)
+            out.append({"==": "(fmt =? %s)", "!=": "(negb (fmt =? %s))", "<": "(fmt <? %s)", "<=": "(fmt <=? %s)",
+                        ">": "(%s <? fmt)", ">=": "(%s <=? fmt)"}[op] % n)
+            i += len(m.group(0)); continue
+        if c.startswith("||", i) or c.startswith("&&", i):
+            out.append(" %s " % c[i:i + 2]); i += 2; continue
+        if c[i] in "()":
+            out.append(c[i]); i += 1; continue
+        if c[i] == "P":
+            out.append("(is_periodic k fmt || is_antiperiodic k fmt)"); i += 1; continue
+        raise vlib.TranslateError("C07 translator: cannot translate %s: %r" % (what, cond.strip()[:200]))
+    return "".join(out)
+
+
+def regen(ctx):
+    """coq/theories/gen/PbcSel.v: which BdryFormat values the three readers call periodic /
+    antiperiodic (CBoundaryProp.cpp) and which ones DoPeriodicBCTriangulation selects (writepoly.cpp)"""
+    bp = open(os.path.join(ctx.snap.src, "libfemm", "CBoundaryProp.cpp"), errors="replace").read().replace("\r", "")
+    wp = open(os.path.join(ctx.snap.src, "fmesher", "writepoly.cpp"), errors="replace").read().replace("\r", "")
+    defs = {}
+    for cls, kind in (("CMBoundaryProp", "Magnetics"), ("CSBoundaryProp", "Electrostatics"), ("CHBoundaryProp", "HeatFlow")):
+        m = re.search(r"bool\s+%s::isPeriodic\s*\(PeriodicityType pt\)\s*const\s*\{(.*?)\n\}" % cls, bp, re.S)
+        if not m:
+            raise vlib.TranslateError("C07 translator: %s::isPeriodic not found" % cls)
+        body = m.group(1)
+        for which in ("Periodic", "AntiPeriodic"):
+            mm = re.search(r"if\s*\(pt==PeriodicityType::Any\s*\|\|\s*pt==PeriodicityType::%s\)\s*\{?\s*if\s*\(([^\n]*?)\)\s*\n" % which, body)
+            if not mm:
+                raise vlib.TranslateError("C07 translator: %s::isPeriodic: branch %s not recognised" % (cls, which))
+            defs[(kind, which)] = _cond_to_coq(mm.group(1), "%s::isPeriodic/%s" % (cls, which))
+    m = re.search(r"//\s*pbc\s*\n(\s*if\s*\(.*?)\n\s*\{", wp, re.S)
+    if not m:
+        raise vlib.TranslateError("C07 translator: the '// pbc' test of DoPeriodicBCTriangulation was not found")
+    test = re.sub(r"\s+", "", re.sub(r"//[^\n]*", "", m.group(1)))
+    if not (test.startswith("if(") and test.endswith(")")):
+        raise vlib.TranslateError("C07 translator: the '// pbc' test has an unexpected shape: %r" % test[:200])
+    sel = _cond_to_coq(test[3:-1], "the pbc selection test")
+    anti = re.search(r"pbc\.antiPeriodic\s*=\s*problem->lineproplist\[i\]->isPeriodic\(CBoundaryProp::PeriodicityType::AntiPeriodic\);", wp)
+    if not anti:
+        raise vlib.TranslateError("C07 translator: 'pbc.antiPeriodic = ...isPeriodic(AntiPeriodic)' not found")
+    kinds = ("Magnetics", "Electrostatics", "HeatFlow")
+    txt = ("(* generated by tools/props/c07.py (regen) from cfemm/libfemm/CBoundaryProp.cpp and cfemm/fmesher/writepoly.cpp *)\n"
+           "From Coq Require Import ZArith Bool.\nLocal Open Scope Z_scope.\n"
+           "Inductive filekind := Magnetics | Electrostatics | HeatFlow.\n"
+           "(* C{M,S,H}BoundaryProp::isPeriodic(PeriodicityType::Periodic) *)\n"
+           "Definition is_periodic (k : filekind) (fmt : Z) : bool :=\n  match k with\n%s  end.\n"
+           "(* ... isPeriodic(PeriodicityType::AntiPeriodic) *)\n"
+           "Definition is_antiperiodic (k : filekind) (fmt : Z) : bool :=\n  match k with\n%s  end.\n"
+           "(* the test under '// pbc' in FMesher::DoPeriodicBCTriangulation *)\n"
+           "Definition pbc_selected (k : filekind) (fmt : Z) : bool :=\n  %s.\n"
+           % ("".join("  | %s => %s\n" % (k, defs[(k, "Periodic")]) for k in kinds),
+              "".join("  | %s => %s\n" % (k, defs[(k, "AntiPeriodic")]) for k in kinds), sel))
+    vlib.write_if_changed(os.path.join(vlib.COQDIR, "theories", "gen", "PbcSel.v"), txt)
+    ctx.pbc_selection = sel
 
 
 # ------------------------------------------------------------------------------ running ----
@@ -212,7 +281,7 @@ def signature(msg, p, out=""):
         return SIG_D3
     if crash:
         return "fmesher:periodic:memory-error"
-    if is_fee_periodic(p) and ("listed 0 pairs" in msg or "was meshed" in msg or "not rejected" in msg):
+    if is_fee_periodic(p) and any(w in msg for w in ("listed 0 pairs", "pair list:", "was meshed", "not rejected")):
         return SIG_E1
     if p.get("invalid"):
         return "fmesher:invalid-pbc:" + p["invalid"]
@@ -234,7 +303,6 @@ def run_valid(ctx, name, p, snap=None, solve=True):
     except Exception as e:
         return None, "mesher output unreadable: %r" % (e,), out + err
     rec = dict(pbc=pbc, mesh=d, base=base, pbc_text=open(base + ".pbc").read())
-    npairs_min = 2 * len(p["pbc_info"])
     if len(pbc) == 0:
         return rec, "the mesher listed 0 pairs for a problem with %d (anti)periodic condition(s) applied to two congruent entities" % len(p["pbc_info"]), out + err
     msg = pair_oracle(p, d["X"], pbc)
@@ -250,7 +318,6 @@ def run_valid(ctx, name, p, snap=None, solve=True):
         except Exception as e:
             return rec, "solution file unreadable: %r" % (e,), ""
         rec["sol"] = sol
-        cf = 1.0
         msg = solution_oracle(p, d["X"], pbc, sol)
         if msg:
             return rec, "solution: " + msg, ""
@@ -424,11 +491,15 @@ def sanitizer_runs(ctx, problems, feats):
         n += 1
         txt = out + err
         if "AddressSanitizer" in txt or "runtime error:" in txt or rc < 0:
-            m = re.search(r"(ERROR: AddressSanitizer: [^\n]*|[^\n]*runtime error:[^\n]*)", txt)
-            where = re.search(r"#\d+ 0x[0-9a-f]+ in (femm::\S*|FMesher::\S*|fmesher::\S*)[^\n]*?(\S+\.cpp:\d+)", txt)
+            m = re.search(r"ERROR: AddressSanitizer: ([\w-]+)", txt)
+            kind = "AddressSanitizer: " + m.group(1) if m else None
+            if not kind:
+                m = re.search(r"runtime error: ([^\n]*)", txt)
+                kind = "UBSan: " + m.group(1)[:80] if m else "killed by signal %d" % (-rc)
+            where = re.search(r"#\d+ 0x[0-9a-f]+ in (\S+?)\(.*?/cfemm/(\S+\.cpp:\d+)", txt)
             msg = "sanitizer report from fmesher on a%s (anti)periodic problem: %s%s" % (
-                "n invalid" if p.get("invalid") else " well-formed", m.group(1).strip() if m else "rc=%d" % rc,
-                (" at " + where.group(2).split("/")[-1]) if where else "")
+                "n invalid" if p.get("invalid") else " well-formed", kind,
+                " in %s at %s" % (where.group(1).split("::")[-1], where.group(2)) if where else "")
             ctx.fail(msg, problem=p, signature=signature(msg, p, txt), flavour="san")
         feats["sanitizer-run"] = feats.get("sanitizer-run", 0) + 1
     return n
@@ -528,6 +599,12 @@ def correspond(ctx):
     cov["input_distribution"] = feats
     cov["samples"] = [dict(features=c[0]["features"], pairs=len(c[1]["pbc"]), nodes=len(c[1]["mesh"]["X"]),
                            first_pass_elements=len(c[2]["T"])) for c in cases[:4]]
+    sel = vlib.coq_eval(HEADER, ["selection_matches_readers"])[0]
+    cov["selection_matches_readers"] = bool(sel)
+    cov["pbc_selection_test"] = getattr(ctx, "pbc_selection", "?")
+    ctx.res.notes.append("theorem in force: " + ("C07_selection_complete (every (anti)periodic condition kind of the three readers is selected)"
+                                                  if sel else "C07_unselected_periodic_pairs_refuted (a condition kind that a reader calls "
+                                                  "(anti)periodic is not selected by DoPeriodicBCTriangulation: no pairs, no rejection)"))
     cov["model_compared"] = len(small)
     cov["invalid_compared"] = len([1 for (p, fp) in inv if fp])
     cov["values_compared"] = stats["tot"]
